@@ -358,6 +358,15 @@ pub fn build_corpus() -> Corpus {
         z.items.push(it.clone());
     }
     edges.push((0, "encapsulation with 43 items".into(), z.encode()));
+    // counts above 127 (two-byte LEB128): many items, chains, rights, users
+    let mut z = e.clone();
+    let it = z.items[0].clone();
+    z.items = vec![it; 130];
+    edges.push((0, "encapsulation with 130 items".into(), z.encode()));
+    let mut z = e.clone();
+    let t0 = z.traps[0].clone();
+    z.traps = vec![t0; 130];
+    edges.push((0, "encapsulation with 130 traps".into(), z.encode()));
     let eh = WEnc::decode(&ser(&enc_h1)).unwrap();
     let mut z = eh.clone();
     z.traps.clear();
@@ -412,7 +421,24 @@ pub fn build_corpus() -> Corpus {
     z.id.push(z.id[0].clone());
     z.id.push(z.id[0].clone());
     edges.push((2, "user key with extra markers".into(), z.encode()));
+    let mut z = u.clone();
+    let c0 = z.chains[0].clone();
+    z.chains = (0..130u64).map(|i| (wire::ids_right(&[i + 200]), c0.1.clone())).collect();
+    edges.push((2, "user key with 130 chains".into(), z.encode()));
+    let mut z = u.clone();
+    z.id = vec![z.id[0].clone(); 130];
+    z.ps = vec![z.ps[0].clone(); 130];
+    edges.push((2, "user key with 130 markers and tracing points".into(), z.encode()));
     let m = WMpk::decode(&ser(&mpk)).unwrap();
+    let mut z = m.clone();
+    let k0 = z.keys.values().next().unwrap().clone();
+    for i in 0..130u64 {
+        z.keys.insert(wire::ids_right(&[i + 300]), k0.clone());
+    }
+    edges.push((3, "public key with 130 extra rights".into(), z.encode()));
+    let mut z = m.clone();
+    z.tpk = vec![z.tpk[0].clone(); 130];
+    edges.push((3, "public key with 130 tracing points".into(), z.encode()));
     let mut z = m.clone();
     z.tpk.clear();
     edges.push((3, "public key with zero tracing points".into(), z.encode()));
@@ -423,6 +449,14 @@ pub fn build_corpus() -> Corpus {
     z.structure = Default::default();
     edges.push((3, "public key with an empty structure".into(), z.encode()));
     let ms = WMsk::decode(&ser(&msk)).unwrap();
+    let mut z = ms.clone();
+    let id0 = z.users[0].clone();
+    z.users = (0..130u8).map(|i| { let mut id = id0.clone(); id[0][0] = i; id[0][31] = 0; id }).collect();
+    edges.push((4, "master key with 130 user ids".into(), z.encode()));
+    let mut z = ms.clone();
+    let t0 = z.tracers[0].clone();
+    z.tracers = vec![t0; 130];
+    edges.push((4, "master key with 130 tracers".into(), z.encode()));
     let mut z = ms.clone();
     z.tracers.clear();
     edges.push((4, "master key with zero tracers".into(), z.encode()));
